@@ -1,4 +1,4 @@
-//go:build verif && (all || c16 || c17 || c39)
+//go:build verif && (all || c16 || c17 || c18 || c39)
 
 package agent
 
@@ -7,6 +7,8 @@ import (
 	"sort"
 
 	"github.com/postalsys/muti-metroo/internal/exit"
+	"github.com/postalsys/muti-metroo/internal/stream"
+	"github.com/postalsys/muti-metroo/internal/udp"
 
 	"github.com/postalsys/muti-metroo/internal/identity"
 	"github.com/postalsys/muti-metroo/internal/peer"
@@ -77,3 +79,9 @@ func C16RelayRoutes(a *Agent, from identity.AgentID, id uint64) bool {
 	up, down := a.tcpRelay.LookupBoth(id)
 	return (up != nil && up.UpstreamPeer == from) || (down != nil && down.DownstreamPeer == from)
 }
+
+// C16UDPHandler returns the agent's exit-side UDP handler (nil when UDP is disabled).
+func C16UDPHandler(a *Agent) *udp.Handler { return a.udpHandler }
+
+// C18StreamManager returns the agent's stream manager (locally terminated streams).
+func C18StreamManager(a *Agent) *stream.Manager { return a.streamMgr }
